@@ -156,6 +156,35 @@ def _yield_from(stmts, func):
     return out if changed else None
 
 
+# ---------------------------------------------------------------------------------------------- renamed result copies
+def _coalesce_renamed(stmts, func):
+    """<stmt binding sock_i1>; sock = sock_i1   ->   <stmt binding sock>   when sock_i1 (a helper local the inliner renamed
+    because the caller has a `sock` of its own) is bound once, read only by that copy, and `sock` does not occur in the
+    statement: the two names never hold different live values."""
+    import re as _re
+    for i in range(len(stmts) - 1):
+        a, b = stmts[i], stmts[i + 1]
+        if not (isinstance(b, ast.Assign) and len(b.targets) == 1 and isinstance(b.targets[0], ast.Name)
+                and isinstance(b.value, ast.Name)):
+            continue
+        x, y = b.targets[0].id, b.value.id
+        m_ = _re.match(r'^(.+)_i\d+$', y)
+        if not m_ or m_.group(1) != x:
+            continue
+        occ = [n for n in ast.walk(func) if isinstance(n, ast.Name) and n.id == y]
+        st_ = [n for n in occ if isinstance(n.ctx, ast.Store)]
+        ld_ = [n for n in occ if isinstance(n.ctx, ast.Load)]
+        if len(st_) != 1 or len(ld_) != 1 or ld_[0] is not b.value:
+            continue
+        if not any(n is st_[0] for n in ast.walk(a)):
+            continue
+        if any(isinstance(n, ast.Name) and n.id == x for n in ast.walk(a)):
+            continue
+        st_[0].id = x
+        return stmts[:i + 1] + stmts[i + 2:]
+    return None
+
+
 # ---------------------------------------------------------------------------------------------- join of one piece
 def _single_join(stmts, func):
     """if len(xs) == 1: p = xs[0] else: p = SEP.join(xs)   ->   p = SEP.join(xs)   (joining one piece yields that piece;
@@ -2030,6 +2059,7 @@ def simple_passes(modules, log):
                 changed = True
             for name, f in (('annotated assignment written plainly', _deannotate),
                             ('join of a single piece written as the join', _single_join),
+                            ('renamed helper result coalesced with its copy', _coalesce_renamed),
                             ('yield from modelled as a loop', _yield_from),
                             ('next(iter(E), D) written as a loop', _next_default),
                             ('loop over chain(A, B) split', _chain_loop),
